@@ -144,15 +144,16 @@ func (m *FloodSub) Execute(ctx context.Context) error {
 		// sweep empty channels
 		for chid, chm := range m.channels {
 			if len(chm) == 0 {
-				if _, ok := pubbedChannels[chid]; ok {
-					// cleanup no-ref subscription
-					// inform peers we no longer need the channel
-					subChanges = append(subChanges, &SubscriptionOpts{
-						ChannelId: chid,
-						Subscribe: false,
-					})
-					delete(pubbedChannels, chid)
-				}
+				// cleanup no-ref subscription
+				// inform peers we no longer need the channel. note: a session
+				// started since the channel was added was told about the
+				// channel in its initial set even if the channel was not yet
+				// announced to the other peers (not in pubbedChannels).
+				subChanges = append(subChanges, &SubscriptionOpts{
+					ChannelId: chid,
+					Subscribe: false,
+				})
+				delete(pubbedChannels, chid)
 				delete(m.channels, chid)
 				m.le.WithField("channel-id", chid).Info("unsubscribed from channel")
 			} else if _, ok := pubbedChannels[chid]; !ok {
